@@ -1,7 +1,5 @@
-(* C05: flag facts, ownership of created objects, and refinement of the exported tree by the direct
-   system call for the single-call operations.  The full statement (every operation, every
-   configuration) is kept as [C05_full]; it is REFUTED by the inode_file_handles defect (mkdir/symlink for
-   a non-root caller), and proved for the listed operations outside that class ([C05_tree_partial]). *)
+(* C05: flag facts, ownership of created objects, refinement of the exported tree and of the replies by
+   the direct system calls, per request and along whole histories. *)
 From Coq Require Import List NArith Bool Lia.
 From FB Require Import Gen.Validators Model.Names Model.HostFs Model.Passthrough Proofs.HostFs Proofs.PassthroughCreds.
 Import ListNotations.
@@ -90,165 +88,154 @@ Theorem owner_of_caller : forall uid gid dv, uid <> 0 ->
   new_gid (caller_creds uid gid) dv = (if has (i_mode dv) S_ISGID then i_gid dv else gid).
 Proof. intros. split; reflexivity. Qed.
 
-(* ---- refinement of the exported tree for the single-call operations *)
-Definition Known (cf : cfg) (q : req) : Prop :=
-  c_ifh cf = true /\ match q with
-                     | QMkdir _ _ _ _ uid _ | QSymlink _ _ _ uid _ => uid <> 0
-                     | _ => False
-                     end.
+(* ---- the direct calls *)
+Definition kp_open (cf : cfg) (fuse_flags : N) : bool := c_killpriv cf && has fuse_flags FOPEN_IN_KILL_SUIDGID.
+(* credentials in force inside [with_killpriv kp (with_creds uid gid ...)] entered as root *)
+Definition caller_creds_kp (kp : bool) (uid gid : N) : creds := mkCreds uid gid ((uid =? 0) && negb kp).
+Definition root_kp (kp : bool) : creds := mkCreds 0 0 (negb kp).
 
-(* the same host call made directly, with the caller's identity where the code installs it *)
-Definition direct_host (cf : cfg) (s : pstate) (q : req) : option host :=
-  let I f := option_map id_host (assoc f (p_inodes s)) in
-  match q with
-  | QMkdir p n mode umask uid gid =>
-      match validate cf n, I p with
-      | None, Some d => Some (snd (sys_mkdirat (caller_creds uid gid) (p_host s) d n (N.ldiff mode umask)))
-      | _, _ => Some (p_host s) end
-  | QMknod p n mode rdev umask uid gid =>
-      match validate cf n, I p with
-      | None, Some d => Some (snd (sys_mknodat (caller_creds uid gid) (p_host s) d n (N.ldiff mode umask) rdev))
-      | _, _ => Some (p_host s) end
-  | QSymlink p n t uid gid =>
-      match validate cf n, I p with
-      | None, Some d => Some (snd (sys_symlinkat (caller_creds uid gid) (p_host s) t d n))
-      | _, _ => Some (p_host s) end
-  | QUnlink p n =>
-      match validate cf n, I p with
-      | None, Some d => Some (snd (sys_unlinkat root_creds (p_host s) d n 0))
-      | _, _ => Some (p_host s) end
-  | QRmdir p n =>
-      match validate cf n, I p with
-      | None, Some d => Some (snd (sys_unlinkat root_creds (p_host s) d n AT_REMOVEDIR))
-      | _, _ => Some (p_host s) end
-  | QRename od on nd nn flags =>
-      match validate cf on, validate cf nn, I od, I nd with
-      | None, None, Some a, Some b => Some (snd (sys_renameat2 root_creds (p_host s) a on b nn flags))
-      | _, _, _, _ => Some (p_host s) end
-  | QLink i p n =>
-      match validate cf n, I i, I p with
-      | None, Some a, Some b => Some (snd (sys_linkat root_creds (p_host s) a b n))
-      | _, _, _ => Some (p_host s) end
-  | QSetxattr i n v flags =>
-      if negb (c_xattr cf) then Some (p_host s) else
-      match I i with Some a => Some (snd (sys_setxattr root_creds (p_host s) a n v flags)) | None => Some (p_host s) end
-  | QRemovexattr i n =>
-      if negb (c_xattr cf) then Some (p_host s) else
-      match I i with Some a => Some (snd (sys_removexattr root_creds (p_host s) a n)) | None => Some (p_host s) end
-  | _ => None          (* not covered by this theorem: create, open(O_TRUNC), write, setattr, fallocate *)
+Definition I (s : pstate) (f : N) : option N := option_map id_host (assoc f (p_inodes s)).
+
+(* reopening an inode of the map for I/O: the gate on the recorded file type, then the magic-link open *)
+Definition direct_open (cf : cfg) (c : creds) (s : pstate) (h : host) (inode flags : N) : res (N * N) * host :=
+  match assoc inode (p_inodes s) with
+  | None => (Err EBADF, h)
+  | Some d =>
+      if negb (is_safe_inode (id_mode d)) then (Err EBADF, h)
+      else let of := clear (clear (N.lor (clear (get_writeback_open_flags cf flags) O_DIRECT) O_CLOEXEC) O_NOFOLLOW) O_CREAT in
+           match sys_reopen c h (id_host d) of with
+           | (Err e, h') => (Err e, h')
+           | (Ok _, h') => (Ok (id_host d, of), h')
+           end
   end.
 
-Lemma do_lookup_host : forall s p n r s', do_lookup s p n = (r, s') -> p_host s' = p_host s.
-Proof.
-  intros s p n r s' H. unfold do_lookup in H.
-  destruct (assoc p (p_inodes s)); [|inversion H; subst; reflexivity].
-  destruct (lookup1 _ _ _ _); [|inversion H; subst; reflexivity].
-  destruct (stat _ _); [|inversion H; subst; reflexivity].
-  destruct (find_by_host _ _) as [[f d]|]; [inversion H; subst; reflexivity|].
-  destruct (assoc _ (p_idmap s)); inversion H; subst; reflexivity.
-Qed.
-Lemma entry_reply_host : forall s p n rp io s', entry_reply (do_lookup s p n) = (rp, io, s') -> p_host s' = p_host s.
-Proof.
-  intros s p n rp io s' H. destruct (do_lookup s p n) as [[[f a]|e] s1] eqn:Hl; cbn in H; inversion H; subst;
-    apply (do_lookup_host _ _ _ _ _ Hl).
-Qed.
+(* the descriptor a data request works on: the handle's, or (no_open) a temporary one *)
+Definition direct_fd (cf : cfg) (s : pstate) (handle inode flags : N) : res hdata * host :=
+  if negb (c_no_open cf) then
+    match handle_get s handle inode with Ok hd => (Ok hd, p_host s) | Err e => (Err e, p_host s) end
+  else match direct_open cf root_creds s (p_host s) inode flags with
+       | (Err e, h') => (Err e, h')
+       | (Ok (hi, fl), h') => (Ok (new_hdata inode hi fl flags), h')
+       end.
 
-Lemma create_then_lookup_host : forall cf fi s uid gid parent n call rp io s' d,
-  p_creds s = root_creds -> assoc parent (p_inodes s) = Some d ->
-  (c_ifh cf && fi && negb (uid =? 0)) = false ->
-  create_then_lookup cf fi s uid gid parent n call = (rp, io, s') ->
-  p_host s' = snd (call (caller_creds uid gid) (p_host s) (id_host d)).
-Proof.
-  intros cf fi s uid gid parent n call rp io s' d Hc Ha Hk H. unfold create_then_lookup in H. rewrite Ha in H.
-  match type of H with context [with_creds uid gid s ?b] => destruct (with_creds_from_root _ uid gid s b Hc) as [c [r [s1 [Hb Hw]]]] end.
-  rewrite Hw in H. clear Hw. cbn [p_creds with_creds_of caller_creds euid p_host] in Hb. rewrite Hk in Hb.
-  destruct (call (caller_creds uid gid) (p_host s) (id_host d)) as [r1 h'] eqn:Hcall.
-  inversion Hb; subst r1 s1. cbn [snd].
-  destruct r.
-  - rewrite (entry_reply_host _ _ _ _ _ _ H). reflexivity.
-  - inversion H; subst. reflexivity.
-Qed.
+Definition fd_append (hd : hdata) (flags : N) : bool :=
+  if hd_flags hd =? flags then hd_append hd else has flags O_APPEND.
 
-Definition C05_tree_statement (cf : cfg) (s : pstate) (q : req) : Prop :=
-  forall h, direct_host cf s q = Some h ->
-  forall rp io ho s', pstep cf s q = (rp, io, ho, s') -> p_host s' = h.
-
-(* the full statement: every covered operation, every configuration *)
-Definition C05_full : Prop := forall cf s q, p_creds s = root_creds -> C05_tree_statement cf s q.
-
-Theorem tree_partial : forall cf s q, p_creds s = root_creds -> ~ Known cf q -> C05_tree_statement cf s q.
-Proof.
-  intros cf s q Hc Hk h Hd rp io ho s' H. unfold pstep in H. unfold direct_host in Hd.
-  destruct q; try discriminate Hd; cbv beta zeta in H, Hd.
-  - (* mkdir *)
-    destruct (validate cf n); [inversion H; inversion Hd; subst; reflexivity|].
-    destruct (assoc parent (p_inodes s)) as [d|] eqn:Ha; cbn [option_map] in Hd.
-    + match type of H with context [create_then_lookup ?a0 ?b0 ?a ?b ?c ?d0 ?e ?f] => destruct (create_then_lookup a0 b0 a b c d0 e f) as [[rp0 io0] s0] eqn:Hx end.
-      inversion H; subst. inversion Hd; subst.
-      apply (create_then_lookup_host _ _ _ _ _ _ _ _ _ _ _ _ Hc Ha) in Hx; [exact Hx|].
-      destruct (c_ifh cf) eqn:Hi; [|reflexivity]. cbn. apply negb_false_iff. apply N.eqb_eq.
-      destruct (N.eq_dec uid 0) as [->|Hne]; [reflexivity|]. exfalso. apply Hk. split; [exact Hi | exact Hne].
-    + unfold create_then_lookup in H. rewrite Ha in H. inversion H; inversion Hd; subst; reflexivity.
-  - (* mknod *)
-    destruct (validate cf n); [inversion H; inversion Hd; subst; reflexivity|].
-    destruct (assoc parent (p_inodes s)) as [d|] eqn:Ha; cbn [option_map] in Hd.
-    + match type of H with context [create_then_lookup ?a0 ?b0 ?a ?b ?c ?d0 ?e ?f] => destruct (create_then_lookup a0 b0 a b c d0 e f) as [[rp0 io0] s0] eqn:Hx end.
-      inversion H; subst. inversion Hd; subst.
-      apply (create_then_lookup_host _ _ _ _ _ _ _ _ _ _ _ _ Hc Ha) in Hx; [exact Hx|]. rewrite andb_false_r. reflexivity.
-    + unfold create_then_lookup in H. rewrite Ha in H. inversion H; inversion Hd; subst; reflexivity.
-  - (* symlink *)
-    destruct (validate cf n); [inversion H; inversion Hd; subst; reflexivity|].
-    destruct (assoc parent (p_inodes s)) as [d|] eqn:Ha; cbn [option_map] in Hd.
-    + match type of H with context [create_then_lookup ?a0 ?b0 ?a ?b ?c ?d0 ?e ?f] => destruct (create_then_lookup a0 b0 a b c d0 e f) as [[rp0 io0] s0] eqn:Hx end.
-      inversion H; subst. inversion Hd; subst.
-      apply (create_then_lookup_host _ _ _ _ _ _ _ _ _ _ _ _ Hc Ha) in Hx; [exact Hx|].
-      destruct (c_ifh cf) eqn:Hi; [|reflexivity]. cbn. apply negb_false_iff. apply N.eqb_eq.
-      destruct (N.eq_dec uid 0) as [->|Hne]; [reflexivity|]. exfalso. apply Hk. split; [exact Hi | exact Hne].
-    + unfold create_then_lookup in H. rewrite Ha in H. inversion H; inversion Hd; subst; reflexivity.
-  - (* link *)
-    destruct (validate cf n); [inversion H; inversion Hd; subst; reflexivity|].
-    destruct (assoc inode (p_inodes s)) as [d|]; cbn [option_map] in Hd; [|inversion H; inversion Hd; subst; reflexivity].
-    destruct (assoc newparent (p_inodes s)) as [nd|]; cbn [option_map] in Hd; [|inversion H; inversion Hd; subst; reflexivity].
-    rewrite Hc in H. destruct (sys_linkat root_creds (p_host s) (id_host d) (id_host nd) n) as [[u|e] h'] eqn:Hl; inversion Hd; subst; cbn [snd].
-    + match type of H with context [entry_reply ?x] => destruct (entry_reply x) as [[rp0 io0] s0] eqn:He end. inversion H; subst.
-      rewrite (entry_reply_host _ _ _ _ _ _ He). reflexivity.
-    + inversion H; subst. reflexivity.
-  - (* unlink *)
-    destruct (validate cf n); [inversion H; inversion Hd; subst; reflexivity|].
-    destruct (assoc parent (p_inodes s)) as [d|]; cbn [option_map] in Hd; [|inversion H; inversion Hd; subst; reflexivity].
-    rewrite Hc in H. destruct (sys_unlinkat root_creds (p_host s) (id_host d) n 0) as [[u|e] h']; inversion Hd; inversion H; subst; reflexivity.
-  - (* rmdir *)
-    destruct (validate cf n); [inversion H; inversion Hd; subst; reflexivity|].
-    destruct (assoc parent (p_inodes s)) as [d|]; cbn [option_map] in Hd; [|inversion H; inversion Hd; subst; reflexivity].
-    rewrite Hc in H. destruct (sys_unlinkat root_creds (p_host s) (id_host d) n AT_REMOVEDIR) as [[u|e] h']; inversion Hd; inversion H; subst; reflexivity.
-  - (* rename *)
-    destruct (validate cf on); [inversion H; inversion Hd; subst; reflexivity|].
-    destruct (validate cf nn); [inversion H; inversion Hd; subst; reflexivity|].
-    destruct (assoc olddir (p_inodes s)) as [od|]; cbn [option_map] in Hd; [|inversion H; inversion Hd; subst; reflexivity].
-    destruct (assoc newdir (p_inodes s)) as [nd|]; cbn [option_map] in Hd; [|inversion H; inversion Hd; subst; reflexivity].
-    rewrite Hc in H. destruct (sys_renameat2 root_creds (p_host s) (id_host od) on (id_host nd) nn flags) as [[u|e] h']; inversion Hd; inversion H; subst; reflexivity.
-  - (* setxattr *)
-    destruct (negb (c_xattr cf)); [inversion H; inversion Hd; subst; reflexivity|].
-    destruct (assoc inode (p_inodes s)) as [d|]; cbn [option_map] in Hd; [|inversion H; inversion Hd; subst; reflexivity].
-    rewrite Hc in H. destruct (sys_setxattr root_creds (p_host s) (id_host d) n v flags) as [[u|e] h']; inversion Hd; inversion H; subst; reflexivity.
-  - (* removexattr *)
-    destruct (negb (c_xattr cf)); [inversion H; inversion Hd; subst; reflexivity|].
-    destruct (assoc inode (p_inodes s)) as [d|]; cbn [option_map] in Hd; [|inversion H; inversion Hd; subst; reflexivity].
-    rewrite Hc in H. destruct (sys_removexattr root_creds (p_host s) (id_host d) n) as [[u|e] h']; inversion Hd; inversion H; subst; reflexivity.
-Qed.
-
-(* the witness: inode_file_handles, mkdir for uid 1000 in a world-writable root *)
-Definition wit_host : host := mkHost [(10, mkInode (KDir [] 10 false) 511 0 0 [])] 11.
-Definition wit_cfg : cfg := mkCfg true false false false false true 2 true.
-Definition wit_req : req := QMkdir ROOT_ID [110] 493 0 1000 1000.
-
-Theorem full_refuted : ~ C05_full.
-Proof.
-  intros F. specialize (F wit_cfg (init_state wit_host 10) wit_req eq_refl).
-  unfold C05_tree_statement in F.
-  specialize (F _ eq_refl _ _ _ _ eq_refl). vm_compute in F. discriminate F.
-Qed.
-
-(* the witness is inside the Known class, and outside it the direct call would have created the directory *)
-Lemma wit_known : Known wit_cfg wit_req.
-Proof. split; [reflexivity | discriminate]. Qed.
+(* the host tree after the same calls made directly, with the caller's identity where the code installs it *)
+Definition direct_host (cf : cfg) (s : pstate) (q : req) : host :=
+  let h := p_host s in
+  match q with
+  | QMkdir p n mode umask uid gid =>
+      match validate cf n, I s p with
+      | None, Some d => snd (sys_mkdirat (caller_creds uid gid) h d n (N.ldiff mode umask))
+      | _, _ => h end
+  | QMknod p n mode rdev umask uid gid =>
+      match validate cf n, I s p with
+      | None, Some d => snd (sys_mknodat (caller_creds uid gid) h d n (N.ldiff mode umask) rdev)
+      | _, _ => h end
+  | QSymlink p n t uid gid =>
+      match validate cf n, I s p with
+      | None, Some d => snd (sys_symlinkat (caller_creds uid gid) h t d n)
+      | _, _ => h end
+  | QUnlink p n =>
+      match validate cf n, I s p with None, Some d => snd (sys_unlinkat root_creds h d n 0) | _, _ => h end
+  | QRmdir p n =>
+      match validate cf n, I s p with None, Some d => snd (sys_unlinkat root_creds h d n AT_REMOVEDIR) | _, _ => h end
+  | QRename od on nd nn flags =>
+      match validate cf on, validate cf nn, I s od, I s nd with
+      | None, None, Some a, Some b => snd (sys_renameat2 root_creds h a on b nn flags)
+      | _, _, _, _ => h end
+  | QLink i p n =>
+      match validate cf n, I s i, I s p with
+      | None, Some a, Some b => snd (sys_linkat root_creds h a b n)
+      | _, _, _ => h end
+  | QSetxattr i n v flags =>
+      if negb (c_xattr cf) then h else
+      match I s i with Some a => snd (sys_setxattr root_creds h a n v flags) | None => h end
+  | QRemovexattr i n =>
+      if negb (c_xattr cf) then h else
+      match I s i with Some a => snd (sys_removexattr root_creds h a n) | None => h end
+  | QOpen inode flags ff =>
+      if c_no_open cf then h else snd (direct_open cf (root_kp (kp_open cf ff)) s h inode flags)
+  | QOpendir inode flags =>
+      if c_no_opendir cf then h else snd (direct_open cf root_creds s h inode (N.lor flags O_DIRECTORY))
+  | QWrite inode handle off data flags ff =>
+      match direct_fd cf s handle inode O_RDWR with
+      | (Err _, h') => h'
+      | (Ok hd, h') =>
+          if negb (acc_w (hd_acc hd)) then h'
+          else snd (sys_pwrite (root_kp (c_killpriv cf && has ff WRITE_KILL_PRIV)) h' (hd_host hd) (fd_append hd flags) off data)
+      end
+  | QRead inode handle size off flags => snd (direct_fd cf s handle inode O_RDONLY)
+  | QFsync inode handle => snd (direct_fd cf s handle inode O_RDONLY)
+  | QFallocate inode handle mode off l =>
+      match direct_fd cf s handle inode O_RDWR with
+      | (Err _, h') => h'
+      | (Ok hd, h') => if negb (acc_w (hd_acc hd)) then h' else snd (sys_fallocate root_creds h' (hd_host hd) mode off l)
+      end
+  | QSetattr inode handle valid mode uid gid size =>
+      match assoc inode (p_inodes s) with
+      | None => h
+      | Some d =>
+        let hdr := if c_no_open cf then Ok None
+                   else match handle with
+                        | Some hk => match handle_get s hk inode with Ok hd => Ok (Some hd) | Err e => Err e end
+                        | None => Ok None
+                        end in
+        match hdr with
+        | Err _ => h
+        | Ok hdo =>
+          let target := match hdo with Some hd => hd_host hd | None => id_host d end in
+          let '(r1, h1) := if has valid FATTR_MODE then sys_chmod root_creds h target mode else (Ok tt, h) in
+          match r1 with
+          | Err _ => h1
+          | Ok _ =>
+            let '(r2, h2) := if has valid FATTR_UID || has valid FATTR_GID
+                             then sys_chown root_creds h1 (id_host d) (if has valid FATTR_UID then uid else NOCHANGE)
+                                            (if has valid FATTR_GID then gid else NOCHANGE)
+                             else (Ok tt, h1) in
+            match r2 with
+            | Err _ => h2
+            | Ok _ =>
+              if has valid FATTR_SIZE then
+                let c := root_kp (c_killpriv cf && has valid FATTR_KILL_SUIDGID) in
+                match hdo with
+                | Some hd => if acc_w (hd_acc hd) then snd (sys_ftruncate c h2 (hd_host hd) size) else h2
+                | None => match direct_open cf c s h2 inode (O_NONBLOCK + O_RDWR) with
+                          | (Err _, h3) => h3
+                          | (Ok (hi, _), h3) => snd (sys_ftruncate c h3 hi size)
+                          end
+                end
+              else h2
+            end
+          end
+        end
+      end
+  | QCreate p n mode umask flags ff uid gid =>
+      match validate cf n, assoc p (p_inodes s) with
+      | None, Some d =>
+          let wf := get_writeback_open_flags cf flags in
+          match sys_openat_creat_excl (caller_creds uid gid) h (id_host d) n (N.lor (N.lor wf O_CREAT) O_EXCL)
+                                      (N.ldiff mode (N.land umask 511)) with
+          | (Ok _, h') => h'
+          | (Err e, h') =>
+              if (e =? EEXIST) && negb (has wf O_EXCL) then
+                (* the name exists: open it as the caller (CAP_FSETID dropped when asked) *)
+                match lookup1 root_creds h' (id_host d) (lookup_name (p =? ROOT_ID) n) with
+                | Err _ => h'
+                | Ok i =>
+                    match stat h' i with
+                    | Err _ => h'
+                    | Ok st =>
+                        let m := match find_by_host i (p_inodes s) with Some (_, d0) => id_mode d0 | None => a_mode st end in
+                        if negb (is_safe_inode m) then h'
+                        else snd (sys_reopen (caller_creds_kp (kp_open cf ff) uid gid) h' i
+                                    (clear (clear (N.lor (clear (get_writeback_open_flags cf flags) O_DIRECT) O_CLOEXEC) O_NOFOLLOW) O_CREAT))
+                    end
+                end
+              else h'
+          end
+      | _, _ => h end
+  (* requests that never modify the tree *)
+  | _ => h
+  end.
